@@ -11,7 +11,7 @@ cache and fringe.  The tape lists every call the solver made to them (arguments 
 Lean solver model (`SeqSolver.lean`) is run against the tape: the *answers* (what a compilation
 returned, which maximal node the fringe popped, what the cache said) are read from the tape, every
 *call* (which operation, with which arguments: the node handed to `compile`, its `best_lb`, the
-width, the capped bound of every pushed cut-set node, the cleared cache layers, …) must be exactly
+width, the (uncapped) bound of every pushed cut-set node, the cleared cache layers, …) must be exactly
 the one the model makes next, and the final `Completion`, bounds and `explored` must coincide.
 `phi` evaluates C01 / C02 / C05 / C14 on the final outputs against the exact optimum of the instance. -/
 namespace Ddo.Engines
@@ -126,7 +126,7 @@ def readUpdate (tape : List (List String)) (st : SeqSt Int) : Sim (SeqSt Int × 
   | _ => .error s!"expected best_exact_value(), tape has {e}"
 
 /-- `enqueue_cutset`: `DD k subs…`, then for every kept node `FL before ; FP node' ; FL after` -/
-def readEnqueue (tape : List (List String)) (dedup : Bool) (st : SeqSt Int) (nodeUb : Int) : Sim (SeqSt Int × List (List String)) := do
+def readEnqueue (tape : List (List String)) (dedup : Bool) (st : SeqSt Int) : Sim (SeqSt Int × List (List String)) := do
   let (e, tape) ← expectHead tape "DD"
   match e with
   | "DD" :: k :: rest =>
@@ -136,14 +136,15 @@ def readEnqueue (tape : List (List String)) (dedup : Bool) (st : SeqSt Int) (nod
       let rec go (st : SeqSt Int) (tape : List (List String)) : List TSub → Sim (SeqSt Int × List (List String))
         | [] => .ok (st, tape)
         | c :: cs =>
-          let c' : TSub := { c with ub := min nodeUb c.ub }
+          -- since the repair of D14 the node is pushed with the bound its diagram gave it (no cap by the parent's bound)
+          let c' : TSub := c
           if c'.ub > st.bestLb then
             match tape with
             | ["FL", b] :: ("FP" :: pt) :: ["FL", a] :: tape' =>
               if b != toString st.fringe.length then .error s!"enqueue: fringe length before push: model {st.fringe.length}, tape {b}"
-              else if parseTSub pt != some c' then .error "enqueue: pushed node differs (state / depth / value / capped ub)"
+              else if parseTSub pt != some c' then .error "enqueue: pushed node differs (state / depth / value / ub: the cut-set node's own bound, not capped)"
               else
-                let st' := st.enqueue dedup nodeUb [c.toSubP]
+                let st' := st.enqueue dedup [c.toSubP]
                 if a != toString st'.fringe.length then .error s!"enqueue: fringe length after push: model {st'.fringe.length}, tape {a}"
                 else go st' tape' cs
             | _ => .error "enqueue: expected len / push / len"
@@ -215,7 +216,7 @@ def simLoop (nbVars : Nat) (cfg : SCfg) : Nat → SeqSt Int → List (List Strin
                       | some xExact =>
                         let (st, tape) ← readUpdate tape st
                         if xExact then simLoop nbVars cfg fuel st tape else
-                        let (st, tape) ← readEnqueue tape cfg.nodup st node.ub
+                        let (st, tape) ← readEnqueue tape cfg.nodup st
                         if st.crashed then .error "open_by_layer index out of range in the model" else
                         simLoop nbVars cfg fuel st tape
                 | _ => .error s!"expected must_explore, tape has {e}"
